@@ -225,6 +225,8 @@ func c05() {
 		jValid([]byte("tru" + ch))
 		jValid([]byte("nul" + ch + " "))
 	}
+	// (3c) Decoder framing across buffer refills (streams longer than the first fill)
+	flagHygieneStreams()
 	// (4) nesting ladder
 	depths := []int{1, 10, 100, 1000, 5000}
 	if thorough {
